@@ -22,7 +22,7 @@ func init() {
 		Rule: "(i) aliasing: along PRNG operation histories every value returned by every Tracker method is deep-copied, then scribbled over (every field, both mode structs, maps: overwrite/insert/delete, writes through *ChanPrivs) " +
 			"and the full query sweep must still equal the relational model; values returned earlier must still equal their deep copy after later tracker operations; (ii) the race detector watches 3..8 goroutines calling all methods " +
 			"on one tracker (a report with both stacks in goirc/state is a violation); (iii) short timed concurrent histories (3..6 goroutines x 6..10 calls over 3 nicks x 2 channels, call/return ticks from one atomic clock) are checked for " +
-			"linearizability against the C12 model with porcupine. Concurrent callers format the snapshots they were given (String()) and the tracker itself. During every concurrent history a neighbouring tracker of the same process is hammered by two goroutines; the tracker's String() listing is held and re-read after later operations. distinct_nontrivial = distinct (kind, method whose return value was scribbled | pair of operation kinds that overlapped in time with at least one mutator).",
+			"linearizability against the C12 model with porcupine. Concurrent callers format the snapshots they were given (String()) and the tracker itself. During every concurrent history a neighbouring tracker of the same process is hammered by two goroutines; the tracker's String() listing is held and re-read after later operations. Copies, scribbles and comparisons of returned values are made by reflection (every settable leaf incl. slices and their spare capacity, nested pointers, maps), and for one scribble in three the tracker's own answers over the whole universe are compared with what they were just before; a formatting logger is installed and a tracker call that never returns is reported with a dead-state proof. distinct_nontrivial = distinct (kind, method whose return value was scribbled | pair of operation kinds that overlapped in time with at least one mutator).",
 		Assumptions: []string{
 			"operations whose outcome the statement leaves open (see C12) are not generated in concurrent histories",
 			"porcupine checker timeout (60 s per history) would be reported as inconclusive",
